@@ -50,9 +50,11 @@ class GenVal:
 
 
 class Obl:
-    __slots__ = ("name", "path", "status", "ms", "backend", "detail", "kind", "model", "top")
+    __slots__ = ("name", "path", "status", "ms", "backend", "detail", "kind", "model", "top", "props")
+    cur_props = None      # set by the builder around a clause that belongs to specific properties only
 
     def __init__(self, name, path, status, ms=0.0, backend="", detail="", kind="", model=None, top=False):
+        self.props = Obl.cur_props
         self.name = name
         self.path = path
         self.status = status     # 'proved' | 'failed' | 'undecided'
@@ -65,7 +67,7 @@ class Obl:
 
     def as_dict(self):
         return dict(name=self.name, path=self.path, status=self.status, ms=round(self.ms, 2), backend=self.backend,
-                    detail=self.detail, kind=self.kind, model=self.model, top=self.top)
+                    detail=self.detail, kind=self.kind, model=self.model, top=self.top, props=self.props)
 
 
 class Frame:
@@ -798,7 +800,9 @@ class Interp:
     def cut_loop(self, st, fr, spec, test, body, pre):
         """Invariant cut: assert inv; havoc; assume inv; then either leave or run one arbitrary iteration."""
         ctx = self.ctx
-        base = "%s/loop#%d" % (fr.qual, spec.ordinal)
+        cn = getattr(ctx, "cname", None)
+        base = "%s/loop#%d" % (fr.qual, spec.ordinal) if (cn is None or cn == fr.qual) else "%s/%s/loop#%d" % (cn, fr.qual if not cn.startswith(fr.qual) else "", spec.ordinal)
+        base = base.replace("//", "/")
         spec.check(self, fr, base + "/inv-entry", kind="loop-entry")
         spec.havoc(self, fr, st)
         spec.assume(self, fr)
@@ -1090,7 +1094,7 @@ class Interp:
                         return r
                 except _NotPure:
                     pass
-            b = self.ctx.branch(c, "boolop@%d" % e.lineno)
+            b = self.ctx.branch(c, "boolop@%d" % getattr(e, "lineno", 0))
             if isand and not b:
                 return v
             if (not isand) and b:
